@@ -1,2 +1,2 @@
 SPECIFICATION TSpec
-INVARIANTS SLayBytes SLayFull SLayb SLayp SLvm SNtsEnc SNtsDec SSck
+INVARIANTS SLayBytes SLayFull SLayb SLayp SLvm SNtsEnc SNtsDec SSck SHistSched SHistValues
